@@ -316,7 +316,13 @@ func (p *renderState) renderExpression(expr ast.Expression, wrap bool, dot bool)
 
 	// DotExpression: left.right
 	case *ast.DotExpression:
-		result = p.renderExpression(expr.Left, false, true) + "."
+		left := p.renderExpression(expr.Left, false, true)
+		switch expr.Left.(type) {
+		case *ast.StringLiteral, *ast.NumberLiteral, *ast.BooleanLiteral:
+			// the template parser rejects a field access directly on a literal term
+			left = `(` + left + `)`
+		}
+		result = left + "."
 		identifier := p.renderExpression(expr.Identifier, false, true)
 		if identifier[0] == '.' || identifier[0] == '$' {
 			identifier = identifier[1:]
